@@ -174,7 +174,12 @@ func (rt *runtime) cmplEvaluateNodeBracketExpression(node *nodeBracketExpression
 	// TODO Pass in base value as-is, and defer toObject till later?
 	obj, err := rt.objectCoerce(targetValue)
 	if err != nil {
-		panic(rt.panicTypeError("Cannot access member %q of %s", memberValue.string(), err, at(node.idx)))
+		// 11.2.1: CheckObjectCoercible(base) (step 5) comes before ToString of the property name (step 6)
+		name := "[object]"
+		if !memberValue.IsObject() {
+			name = memberValue.string()
+		}
+		panic(rt.panicTypeError("Cannot access member %q of %s", name, err, at(node.idx)))
 	}
 	return toValue(newPropertyReference(rt, obj, memberValue.string(), false, at(node.idx)))
 }
